@@ -232,6 +232,27 @@ static void *w_dectest (void *a) {
 	return NULL;
 }
 
+/* reference-count pattern: the word oscillates around 0 and 1, where a dec_and_test may be tempted to take a short cut.
+ * Every thread does inc then dec_and_test; dec_and_test may say TRUE only when the word really became 0, the word is
+ * never negative, and at the end it is 0 again. */
+static long incdec_neg, incdec_true;
+static void *w_incdec (void *a) {
+	int i;
+	long neg = 0, t = 0;
+	(void) a;
+	pthread_barrier_wait (&bar);
+	for (i = 0; i < ITERS && !EXPIRED (i); i++) {
+		p_atomic_int_inc (&X);
+		if (p_atomic_int_dec_and_test (&X)) t++;
+		if ((i & 7) == 0 && p_atomic_int_get (&X) < 0) neg++;
+	}
+	pthread_mutex_lock (&agg);
+	incdec_neg += neg; incdec_true += t;
+	pthread_mutex_unlock (&agg);
+	add_done (i);
+	return NULL;
+}
+
 static void *w_casinc (void *a) {
 	int i;
 	(void) a;
@@ -418,6 +439,10 @@ int main (int argc, char **argv) {
 		/* the deadline may have stopped the workers early: the remaining decrements are done here */
 		for (rest = (long) N * ITERS - done_iters; rest > 0; rest--) if (p_atomic_int_dec_and_test (&X)) true_count++;
 		printf ("dectest true %ld final %d\n", true_count, (int) p_atomic_int_get (&X));
+	} else if (!strcmp (mode, "incdec")) {
+		p_atomic_int_set (&X, 0);
+		run_threads (w_incdec);
+		printf ("incdec negative_seen %ld final %d true %ld pairs %ld\n", incdec_neg, (int) p_atomic_int_get (&X), incdec_true, done_iters);
 	} else if (!strcmp (mode, "casinc")) {
 		run_threads (w_casinc);
 		printf ("casinc final %d expected %ld\n", (int) p_atomic_int_get (&X), done_iters);
